@@ -25,6 +25,7 @@ import CookModel.Lemmas.CollectorShape
 import CookModel.Lemmas.CollectorLast
 import CookModel.Lemmas.RoundtripRefsX
 import CookModel.Lemmas.RoundtripDocRefs
+import CookModel.Lemmas.RoundtripModes
 /-
   C01  Printing a recipe as Cooklang and parsing it returns that recipe.
 
@@ -1618,5 +1619,104 @@ example : xOKB (α := Rat) C01_refsEnv {} [] ⟨none, []⟩ 1
     [.step [.ingr none (absIngr { mods := [.and], name := [tk .word "flour".toList] })]] = false := by decide
 example : xOKB (α := Rat) C01_refsEnv {} [] ⟨none, []⟩ 1
     [.step [.ingr (some ⟨true, false, 1⟩) (absIngrM [.and] { name := [tk .word "dough".toList] })]] = false := by decide
+
+/-! ### mode switches through the analysis pass -/
+
+/-- `>> [mode]: components` (also `[define]`, `ingredients`) under MODES sets the define mode and does nothing
+    else: it is not a metadata entry (nothing enters the map, no deprecation label, no diagnostic) -/
+theorem C01_mode_switch_on {α : Type} [Arith α] (env : Env) (input : Str) (k v : Text) (s : Col α)
+    (h : ModeOn env k v) : (processEvent env input (.metadata k v) s).2 = { s with defineMode := .components } :=
+  rtm_modeOn env k v s h
+
+/-- `>> [mode]: all` (also `[define]`, `default`) switches back, and does nothing else -/
+theorem C01_mode_switch_off {α : Type} [Arith α] (env : Env) (input : Str) (k v : Text) (s : Col α)
+    (h : ModeOff env k v) : (processEvent env input (.metadata k v) s).2 = { s with defineMode := .all } :=
+  rtm_modeOff env k v s h
+
+/-- **A region written in components mode.**  The collector is in the default modes between blocks (`stOfT`:
+    any finished sections, current section, tables `T`, metadata, diagnostics).  The events are
+    `>> [mode]: components`, then any number of step blocks whose items are plain definitions of ingredients,
+    cookware, timers (`SItem.CompOK`; a text is allowed if it has no letter or digit — otherwise
+    `text-in-components-mode` is raised), then `>> [mode]: all`.  Afterwards the collector is in the default
+    modes again and
+    * the components are IN THE TABLES, in order, as written, with `defined_in_step = false` (`xCTbls`);
+    * they are NOT IN STEPS: the content of the current section, the finished sections are unchanged;
+    * STEP NUMBERING IS UNAFFECTED: the step counter `n` is unchanged;
+    * the `>>` map, the deprecation labels, the diagnostics, the panic flag are unchanged. -/
+theorem C01_components_mode_region {α : Type} [Arith α] (env : Env) (input : Str) (base : Col α) (hb : BaseOK base)
+    (rest : List (Ev α)) (kOn vOn kOff vOff : Text) (hon : ModeOn env kOn vOn) (hoff : ModeOff env kOff vOff)
+    (defs : List (List (SItem α))) (hs : ∀ st ∈ defs, ∀ it ∈ st, it.CompOK env)
+    (before : List (SItem α)) (T : XTbls α) (hfit : TblsFit before T) (content : List Content) (n : Nat) :
+    parseEventsLoop env input (compsEvents kOn vOn defs kOff vOff ++ rest) (stOfT base before T content n none) =
+      parseEventsLoop env input rest
+        (stOfT base (before ++ defs.flatten) (xCTbls T (defs.flatten.map (SItem.x env))) content n none) :=
+  (rtm_region env input base hb rest kOn vOn kOff vOff hon hoff defs hs before T hfit content n).1
+
+/-- **Analysis layer for documents with components-mode regions** (extends `C01_analysis_doc_all_refs`).  The
+    blocks are those of that theorem (`MBlock.plain`) and components-mode regions (`MBlock.comps`, as in
+    `C01_components_mode_region`).  `parse_events` returns the recipe `xRun …` of the described blocks, where a
+    region only extends the tables (`XBlock.comps`): sections, step numbers and item indices of the steps
+    around it are as if the region's steps were not there, except that component indices count the region's
+    components; a later `&name` resolves to a definition made in the region under the conditions of
+    `IngrRefOKG` (in particular not both with an amount: the definition is outside a step).  The mode switches
+    are not counted among the `>>` entries of the deprecation notice.  Not covered: `[mode]: steps`,
+    `[mode]: text`, `[duplicate]: ref`; the parser / document level for mode lines. -/
+theorem C01_analysis_components_mode {α : Type} [Arith α] (env : Env) (input : Str) (blocks : List (MBlock α))
+    (hside : ∀ b ∈ blocks, b.SideOK env)
+    (hok : xOK env {} [] ⟨none, []⟩ 1 (blocks.map (MBlock.x env))) :
+    ∃ c : Col α, parseEvents env input (blocks.flatMap MBlock.events) = ⟨some c, c.diags, none⟩ ∧
+      c.sections = (xRun env {} [] ⟨none, []⟩ 1 [] (blocks.map (MBlock.x env))).secs ∧
+      c.ingredients = (xRun env {} [] ⟨none, []⟩ 1 [] (blocks.map (MBlock.x env))).T.ing ∧
+      c.cookware = (xRun env {} [] ⟨none, []⟩ 1 [] (blocks.map (MBlock.x env))).T.cw ∧
+      c.timers = (xRun env {} [] ⟨none, []⟩ 1 [] (blocks.map (MBlock.x env))).T.tm ∧
+      c.metaMap = (xRun env {} [] ⟨none, []⟩ 1 [] (blocks.map (MBlock.x env))).metaMap ∧
+      c.diags = deprecation (docSpans (mEntries blocks)) ∧
+      c.inlineQ = #[] ∧ c.frontMatter = none :=
+  rtm_parseEvents_mdoc env input blocks hside hok
+
+/-- in `xRun` a components-mode region changes the tables only: finished sections, current section, step
+    number and `>>` map are passed on as they are -/
+theorem C01_components_mode_run {α : Type} [Arith α] (env : Env) (T : XTbls α) (secs : List Section) (cur : Section)
+    (num : Nat) (m : List (Str × Str)) (st : List (XItem α)) (r : List (XBlock α)) :
+    xRun env T secs cur num m (.comps st :: r) = xRun env (xCTbls T st) secs cur num m r := rfl
+
+/-! example: `>> [mode]: components`, a step `@salt{=1%tsp}`, `>> [mode]: all`, then the step `Add @&salt`:
+    one step, numbered 1, holding the reference (index 1); `salt` is in the table with
+    `defined_in_step = false` and lists the reference back; no diagnostic (not even the deprecation notice) -/
+def C01_modesEnv : Env := ⟨toyCharSpec, ⟨Gen.EXT_MODES⟩, fun _ => none, fun _ _ => .ok, fun c => [c], 0⟩
+def C01_exModeBlocks : List (MBlock Rat) :=
+  [.comps (C01_txt "[mode]" 3) (C01_txt "components" 11) [[.ingredient C01_exSalt1]] (C01_txt "[mode]" 40) (C01_txt "all" 48),
+   .plain (.step [.text (C01_txt "Add " 60), .ingredient C01_exSaltRef])]
+example : ∀ b ∈ C01_exModeBlocks, b.SideOK C01_modesEnv := by
+  intro b hb
+  simp only [C01_exModeBlocks, List.mem_cons, List.not_mem_nil, or_false] at hb
+  rcases hb with rfl | rfl
+  · refine ⟨⟨by decide, by decide, by decide⟩, ⟨by decide, by decide, by decide⟩, ?_⟩
+    intro st hst it hit
+    simp only [List.mem_cons, List.not_mem_nil, or_false] at hst
+    subst hst
+    simp only [List.mem_cons, List.not_mem_nil, or_false] at hit
+    subst hit
+    exact ⟨rfl, by decide, by intro q hq; cases hq; intro _; exact ⟨rfl, rfl⟩⟩
+  · intro it hit
+    simp only [List.mem_cons, List.not_mem_nil, or_false] at hit
+    rcases hit with rfl | rfl
+    · intro h; exact absurd h (by decide)
+    · intro q hq; cases hq
+example : xOK C01_modesEnv {} [] ⟨none, []⟩ 1 (C01_exModeBlocks.map (MBlock.x C01_modesEnv)) :=
+  C01_reference_conditions_check _ _ _ _ _ _ (by decide)
+example : (xRun C01_modesEnv {} [] ⟨none, []⟩ 1 [] (C01_exModeBlocks.map (MBlock.x C01_modesEnv))).secs =
+    [⟨none, [.step ⟨[.text "Add ".toList, .ingredient 1], 1⟩]⟩] := by decide
+example : (xRun C01_modesEnv {} [] ⟨none, []⟩ 1 [] (C01_exModeBlocks.map (MBlock.x C01_modesEnv))).T.ing.toList.map
+      (fun i => (i.name, i.relation)) =
+    [("salt".toList, ⟨.definition [1] false, none⟩), ("salt".toList, ⟨.reference 0, some .ingredient⟩)] := by decide
+example : (parseEvents C01_modesEnv [] (C01_exModeBlocks.flatMap MBlock.events)).output.map
+      (fun c => (c.ingredients.toList.map (·.relation), c.sections, c.diags.toList)) =
+    some ([⟨.definition [1] false, none⟩, ⟨.reference 0, some .ingredient⟩],
+          [⟨none, [.step ⟨[.text "Add ".toList, .ingredient 1], 1⟩]⟩], []) := by rfl
+/-- a text with a letter inside a components-mode step is reported: the condition on texts is needed -/
+example : (parseEvents (α := Rat) C01_modesEnv [] (compsEvents (C01_txt "[mode]" 3) (C01_txt "components" 11)
+      [[.text (C01_txt "Add " 20)]] (C01_txt "[mode]" 40) (C01_txt "all" 48))).diags.toList.map (·.kind) =
+    ["text-in-components-mode"] := by rfl
 
 end Cook
